@@ -81,7 +81,13 @@ type Fault struct {
 	// "cancel" (the caller's context is cancelled just before the call - Server.SetCancel - and the call is
 	// refused with context.Canceled without being applied; the connection stays usable, as go-sql-driver
 	// refuses a statement on a done context).
+	// "breakrows" (a query is applied and its result set breaks off after Rows rows: Rows.Next returns ErrNo
+	// - a deadlock victim / lost packet mid-stream - the connection stays usable),
+	// "call" (the call is applied normally, then - after the server lock is released - the callback registered
+	// with Server.OnCall runs: e.g. another session acting between two statements of a transaction; direct
+	// Exec/Query calls only).
 	Action string `json:"action,omitempty"`
+	Rows   int    `json:"rows,omitempty"`  // breakrows: rows delivered before the error
 	ErrNo  uint16 `json:"errno,omitempty"` // default 1105
 	Tag    string `json:"tag,omitempty"`   // only connections whose DSN has tag=<Tag> ("" any)
 
@@ -188,6 +194,8 @@ type Server struct {
 	// ResetDiscardsTx: when true ResetSession rolls an open transaction back
 	// (default false = what go-sql-driver/mysql does: nothing).
 	ResetDiscardsTx bool
+	callFn          func()
+	pendingCall     bool
 	cancelFn        func() // what a fault with action "cancel" calls (SetCancel)
 	journalOff      bool
 }
@@ -246,6 +254,13 @@ func (s *Server) checkFault(kind, sql, tag string) *Fault {
 		return f
 	}
 	return nil
+}
+
+// OnCall registers the callback of faults with action "call" (nil to clear). It runs without the server lock.
+func (s *Server) OnCall(fn func()) {
+	s.mu.Lock()
+	s.callFn = fn
+	s.mu.Unlock()
 }
 
 // SetCancel registers the cancel function of the context of the call(s) about to be made
